@@ -299,7 +299,41 @@ def load(modname: str):
         _loaded.pop(modname, None)
         sys.modules.pop(full, None)
         raise
+    _snapshot_module_state(m)
     return m
+
+
+_MODULE_STATE = []      # (container, saved contents) for every mutable module-level container of the rewritten modules
+
+
+def _snapshot_module_state(m):
+    """Module-level containers (memo tables and the like) must not carry what one explored path put into them over to
+    the next path: every path starts from the state the module had right after import."""
+    for name, val in list(m.__dict__.items()):
+        if name.startswith("__"):
+            continue
+        if isinstance(val, SymDict):
+            _MODULE_STATE.append((val, (list(val._k), list(val._v))))
+        elif isinstance(val, SymSet):
+            _MODULE_STATE.append((val, list(val._e)))
+        elif isinstance(val, (list, dict, set)):
+            _MODULE_STATE.append((val, val.copy()))
+
+
+def _restore_module_state():
+    for obj, saved in _MODULE_STATE:
+        if isinstance(obj, SymDict):
+            obj._k[:], obj._v[:] = list(saved[0]), list(saved[1])
+        elif isinstance(obj, SymSet):
+            obj._e[:] = list(saved)
+        elif isinstance(obj, list):
+            obj[:] = saved
+        else:
+            obj.clear()
+            obj.update(saved)
+
+
+sc.PATH_RESET.append(_restore_module_state)
 
 
 class SymModules:
